@@ -23,24 +23,36 @@ def run_case(case):
     pool = pvlib.Pool(host, hostsub)
     obj = host()
     pool.register(obj, 110, 0)
-    v = pool.val(vj)
     ct = obj.trait("x")
     h = ct.handler
-    out = {"c": pvlib.outcome(pool, lambda: ct.validate(obj, "x", v))}
+    # a fresh value for every call: an implementation that mutates its argument must not disturb the other paths,
+    # and the mutation itself is an observation
+    out = {"venc": pool.enc(pool.val(vj)), "mut": []}
+
+    def call(tag, f):
+        v = pool.val(vj)
+        r = pvlib.outcome(pool, lambda: f(v))
+        try:
+            if pool.enc(v) != out["venc"]:
+                out["mut"].append(tag)
+        except pvlib.Unencodable:
+            out["mut"].append(tag)
+        return r
+    out["c"] = call("CTrait.validate", lambda v: ct.validate(obj, "x", v))
     pyv = getattr(h, "validate", None) if h is not None else None
-    out["p"] = pvlib.outcome(pool, lambda: pyv(obj, "x", v)) if pyv is not None else None
+    out["p"] = call("handler.validate", lambda v: pyv(obj, "x", v)) if pyv is not None else None
     if alts is not None:
         out["alts"] = []
         for i in range(len(alts)):
             cti = obj.trait("a%d" % i)
-            out["alts"].append(pvlib.outcome(pool, lambda: cti.validate(obj, "a%d" % i, v)))
+            out["alts"].append(call("alternative %d alone" % i, lambda v, cti=cti, i=i: cti.validate(obj, "a%d" % i, v)))
     else:
         out["alts"] = None
+    v = pool.val(vj)
     # adapt='default' inside a compound: the compiled switch returns default_value_for(the COMPOUND's trait); the
     # model takes that value as data (field dflt of the DAdapt alternatives of the flattened compound)
     out["d"] = patch_adapt_default(d, pvlib.outcome(pool, lambda: ct.default_value()[1])) if alts is not None else d
     out["orc"], out["re"] = pvlib.oracles(pool, d, v)
-    out["venc"] = pool.enc(v)
     fv = getattr(h, "fast_validate", None) if h is not None else None
     out["fast"] = fv is not None
     return out
